@@ -568,8 +568,16 @@ def canon_effect(eff: Effect, var_names: Set[str]) -> Dict[str, object]:
     for a in eff.args.values():
         used |= {n.id for n in ast.walk(a) if isinstance(n, ast.Name)}
     defs = {}
-    for nm in sorted(used & set(builders)):
+    todo = sorted(used & set(builders))
+    while todo:
+        nm = todo.pop(0)
+        if nm in defs:
+            continue
         defs[nm] = [builder_text(eff.func.node, st) for _, st in sorted(builders[nm], key=lambda x: x[0])]
+        for txt in defs[nm]:
+            for other in builders:
+                if other not in defs and other not in todo and re.search(r"(?<![\w.])" + re.escape(other) + r"(?!\w)", txt):
+                    todo.append(other)
     if defs:
         out["defs"] = defs
     if eff.kind == "add_constraint":
